@@ -395,6 +395,33 @@ where
     }
 }
 
+/// A copy of the bytes a borrowed-flavour builder is given (payload, name, reason, bit string), starting at a rotating
+/// address residue modulo 8 (`guard::out_residue`): the builders keep the caller's slice, so where it lives is part
+/// of the configuration's environment just as the output buffer's address is.
+pub struct In {
+    v: Vec<u8>,
+    off: usize,
+    len: usize,
+}
+
+impl In {
+    pub fn new(b: &[u8]) -> In {
+        let residue = crate::engine::guard::out_residue();
+        let mut v: Vec<u8> = Vec::with_capacity(b.len() + 16);
+        let base = v.as_ptr() as usize;
+        let off = (residue + 8 - base % 8) % 8;
+        v.resize(off, 0xEE);
+        v.extend_from_slice(b);
+        In { v, off, len: b.len() }
+    }
+    pub fn bytes(&self) -> &[u8] {
+        &self.v[self.off..self.off + self.len]
+    }
+    pub fn str(&self) -> &str {
+        as_str(self.bytes())
+    }
+}
+
 /// Realise configuration `p` with the crate's builders (in the flavour `var`) and hand the
 /// resulting writer to `f`.
 pub fn with_writer(p: &Pkt, var: Variant, f: &mut dyn FnMut(&dyn RtcpPacketWriter)) {
@@ -466,8 +493,9 @@ pub fn with_writer(p: &Pkt, var: Variant, f: &mut dyn FnMut(&dyn RtcpPacketWrite
                 }
                 finish(b, wrap, f)
             } else {
+                let rin = In::new(reason.as_bytes());
                 if !reason.is_empty() {
-                    b = pr(if var.cow { b.reason(reason.clone()) } else { b.reason(reason.as_str()) }, on);
+                    b = pr(if var.cow { b.reason(reason.clone()) } else { b.reason(rin.str()) }, on);
                 }
                 if var.pad_last {
                     b = pr(b.padding(*pad), on);
@@ -476,16 +504,18 @@ pub fn with_writer(p: &Pkt, var: Variant, f: &mut dyn FnMut(&dyn RtcpPacketWrite
             }
         }
         Pkt::App { ssrc, subtype, name, data, pad } => {
-            let mut b = pr(App::builder(*ssrc, name.as_str()), on);
+            let (nin, din) = (In::new(name.as_bytes()), In::new(data));
+            let mut b = pr(App::builder(*ssrc, nin.str()), on);
             if rs {
                 b = ch!(on; b, .padding(other_pad(*pad)), .data(&[9u8, 9, 9][..]), .subtype(subtype.wrapping_add(7)));
             }
             // the plain order sets the padding last; the "pad_last" flavour is the other order here: padding first
-            let b = if var.pad_last { ch!(on; b, .padding(*pad), .subtype(*subtype), .data(&data[..])) } else { ch!(on; b, .subtype(*subtype), .data(&data[..]), .padding(*pad)) };
+            let b = if var.pad_last { ch!(on; b, .padding(*pad), .subtype(*subtype), .data(din.bytes())) } else { ch!(on; b, .subtype(*subtype), .data(din.bytes()), .padding(*pad)) };
             finish(b, wrap, f)
         }
         Pkt::Unknown { pt, count, data, pad } => {
-            let mut b = pr(Unknown::builder(*pt, &data[..]), on);
+            let din = In::new(data);
+            let mut b = pr(Unknown::builder(*pt, din.bytes()), on);
             if rs {
                 b = ch!(on; b, .padding(other_pad(*pad)), .count(count.wrapping_add(7)), .padding(12));
             }
@@ -547,7 +577,8 @@ pub fn with_writer(p: &Pkt, var: Variant, f: &mut dyn FnMut(&dyn RtcpPacketWrite
                         if rs {
                             r = ch!(on; r, .native_data(&[0xEEu8, 0xEE, 0xEE][..], 9), .payload_type(pt.wrapping_add(77)));
                         }
-                        let fb = if var.cow { ch!(on; r, .payload_type(*pt), .native_data(data.clone(), *overrun)) } else { ch!(on; r, .payload_type(*pt), .native_data(&data[..], *overrun)) };
+                        let din = In::new(data);
+                        let fb = if var.cow { ch!(on; r, .payload_type(*pt), .native_data(data.clone(), *overrun)) } else { ch!(on; r, .payload_type(*pt), .native_data(din.bytes(), *overrun)) };
                         fbb!(builder, &fb)
                     }
                     Fci::Pli => {
